@@ -3,10 +3,12 @@ package c06
 
 import (
 	"bytes"
+	"crypto"
 	"crypto/sha256"
 	"crypto/x509"
 	"encoding/binary"
 	"fmt"
+	"io"
 	"testing"
 	"time"
 
@@ -37,6 +39,16 @@ type Case struct {
 	Cert    hx.Hex
 	TZMin   int  // offset of the process time zone from UTC in minutes
 	OpenSSL bool // also ask the openssl CLI
+	Slow    bool // the signer answers only after the wall clock has moved on to the next second (HSM / smartcard)
+}
+
+// slowSigner delays its answer past the next second boundary.
+type slowSigner struct{ crypto.Signer }
+
+func (s slowSigner) Sign(r io.Reader, d []byte, o crypto.SignerOpts) ([]byte, error) {
+	now := time.Now()
+	time.Sleep(now.Truncate(time.Second).Add(time.Second + 15*time.Millisecond).Sub(now))
+	return s.Signer.Sign(r, d, o)
 }
 
 // raw is a Marshallable over plain bytes.
@@ -84,6 +96,7 @@ func genCase(t *rapid.T) Case {
 	if rapid.IntRange(0, 3).Draw(t, "utc") != 0 {
 		c.TZMin = 15 * rapid.IntRange(-48, 56).Draw(t, "tzquarters")
 	}
+	c.Slow = gen.Chance(t, "slowsigner", 1, 60)
 	c.OpenSSL = rapid.IntRange(0, 19).Draw(t, "openssl") == 0 || hx.Thorough() && rapid.IntRange(0, 4).Draw(t, "openssl2") == 0
 	return c
 }
@@ -154,7 +167,12 @@ func checkCase(c Case) error {
 			m = &db
 		}
 	}
-	auth, out, err := signature.SignEFIVariable(v, m, id.Priv(), id.Cert)
+	var signer crypto.Signer = id.Priv()
+	if c.Slow {
+		signer = slowSigner{signer}
+		hx.Class("slow_signer_crossing_a_second_boundary")
+	}
+	auth, out, err := signature.SignEFIVariable(v, m, signer, id.Cert)
 	t1 := time.Now().UTC()
 	time.Local = saved
 	if err != nil {
